@@ -1,0 +1,15 @@
+//go:build verif
+
+package main
+
+// Contracts for the verification machinery in /verif (comment-only; no executable code).
+
+//@ import "os"
+
+// Exit status: 0 only for -help, -version, or a Run that returned nil (called exactly once).
+// Every error path ends in os.Exit with a non-zero status (os.Exit never returns).
+//@ func main()
+//@   modifies everything
+//@   track Run PrintHelp
+//@   callsite os.Exit requires @status arg0 == 0 ==> (cmd.Help && ncalls(PrintHelp) == 1 && lasterr(PrintHelp) == nil)
+//@       || (!cmd.Help && cmd.Version) || (!cmd.Help && !cmd.Version && ncalls(Run) == 1 && lasterr(Run) == nil)
